@@ -13,7 +13,7 @@ PROPERTY = "C13"
 LEVEL = "exploration"
 RULE = ("case = one execution of a traced plan (every yield records the value or exception it receives): corpus plans and "
         "'responses' (one yield of almost every command), bare and under the preprocessors SupplementalData(baseline, "
-        "monitors), finalize_wrapper, relative_set/reset_positions, set_run_key and msg/plan mutators, uninterrupted and "
+        "monitors), finalize_wrapper, relative_set/reset_positions, set_run_key, msg/plan mutators and a message filter that removes messages (the plan gets None there), uninterrupted and "
         "with pause/resume or suspension (with pre/post plans) landing after EVERY loop handle; the received value must be "
         "the response of the latest execution of that very message: the new run's uid for open_run, the device's own "
         "status object (identity) for set/trigger/kickoff/complete, the device's reading/location/list (equality) for read/locate/stage/unstage, True for wait, "
@@ -23,7 +23,7 @@ RULE = ("case = one execution of a traced plan (every yield records the value or
 ASSUMPTIONS = ["a response is 'to its own message' when it is what the device/engine produced during some execution of that "
                "message object before the value was delivered (a rewind may execute a message more than once)"]
 REQUIRED_COUNTERS = {"executions": 500, "responses_checked": 10000, "identity_checks": 3000, "interrupted_executions": 300,
-                     "call_returns_checked": 300, "result_objects_checked": 50}
+                     "call_returns_checked": 300, "result_objects_checked": 50, "removed_messages_checked": 200}
 MANIFEST = {
     "technique": "self-instrumented plans + response oracle (identity against the device ledger / document log) over an "
                  "exhaustive pause/suspend coordinate sweep and a preprocessor matrix",
@@ -36,7 +36,7 @@ MANIFEST = {
 }
 PLANS_Q = ["responses", "custom", "scan", "nested"]
 PLANS_T = PLANS_Q + ["mixed", "fly", "count", "grid", "two_runs", "neverclose"]
-WRAPPERS = ["traced", "traced+sd", "traced+finalize", "traced+mutators", "traced+result"]
+WRAPPERS = ["traced", "traced+sd", "traced+finalize", "traced+mutators", "traced+result", "traced+filter"]
 SHARD_TIMEOUT = {"quick": 900, "thorough": 3600}
 NONE_CMDS = {"null", "checkpoint", "sleep", "create", "save", "drop", "monitor", "unmonitor", "clear_checkpoint",
              "unsubscribe", "install_suspender", "remove_suspender"}
@@ -67,6 +67,9 @@ def build_spec(plan, wrapper):
         spec["outer"] = "finalize"
     elif wrapper == "traced+mutators":
         spec["outer"] = "mutators"
+    elif wrapper == "traced+filter":
+        spec["outer"] = "filter"
+        del spec["wrap_name"]      # here the tracer sits INSIDE the filter (it must see what the filter sends back)
     elif wrapper == "traced+result":
         spec["re_kwargs"] = {"call_returns_result": True}
     return spec
@@ -83,6 +86,11 @@ def _outer(plan, h, d, which):
         def fin():
             yield Msg("null", None, "fin")
         return bpp.finalize_wrapper(plan, fin)
+    if which == "filter":
+        # a message filter that REMOVES messages: the plan gets None at the yield of a removed message
+        from vf.corpus import traced
+
+        return bpp.msg_mutator(traced(plan, h), lambda m: None if (m.command == "null" and m.args[:1] == ("droppable",)) else m)
     if which == "mutators":
         return bpp.msg_mutator(bpp.plan_mutator(plan, lambda m: (None, None)), lambda m: m)
     return plan
@@ -153,7 +161,7 @@ def judge(ex, wrapper, ref_nm):
     table = expected_table(log)
     problems = []
     counters = {"executions": 1, "responses_checked": 0, "identity_checks": 0, "interrupted_executions": int(bool(li)),
-                "call_returns_checked": 0, "result_objects_checked": 0}
+                "call_returns_checked": 0, "result_objects_checked": 0, "removed_messages_checked": 0}
     yields = {}
     interrupted_cmds = set()
     # which message was in flight when an interruption took effect
@@ -174,6 +182,10 @@ def judge(ex, wrapper, ref_nm):
             r = e[4]
             execs = [x for x in table.get(id(m), []) if x[0] < i]
             if not execs:
+                if m.command == "null" and m.args[:1] == ("droppable",) and wrapper == "traced+filter":
+                    counters["removed_messages_checked"] += 1
+                    if r is not None:
+                        problems.append(("removed-message-got-a-response", f"yield {e[3]}: received {str(r)[:60]!r}, the message never reached the engine"))
                 continue
             kind = execs[-1][1]
             counters["responses_checked"] += 1
